@@ -246,6 +246,12 @@ def abstract(form, nwords):
         return ["abstract", None, {}, [["markdown", t if t is not None else "", {}, []]]]
     if form == "inline":       # a para holding only inline children (valid mixed content): para.content is None
         return ["abstract", None, {}, [["para", None, {}, [["emphasis", t if t is not None else "e", {}, []]]]]]
+    if form == "nested":       # paras inside the list of another para (para > itemizedlist > listitem > para), words spread over them
+        a = nwords // 2
+        b = (nwords - a) // 2
+        c = nwords - a - b
+        items = [["listitem", None, {}, [["para", W_(x), {}, []]]] for x in (b, c) if x]
+        return ["abstract", None, {}, [["para", W_(a) if a else None, {}, [["itemizedlist", None, {}, items]] if items else []]]]
     if form == "split":        # words spread over own text and two paras
         a, b = nwords // 2, nwords - nwords // 2
         return ["abstract", W_(a) if a else None, {}, [["para", W_(b), {}, []], ["para", None, {}, [["emphasis", "e", {}, []]]]]]
@@ -279,7 +285,15 @@ ATTRIBUTE = ["attribute", None, {}, [["attributeName", "a", {}, []], ["attribute
                                          ["textDomain", None, {}, [["definition", "any", {}, []]]]]]]]]]]]
 
 
-def datatable(desc="text", phys=True, nrec="present", own_methods=False, own_coverage=False, **pk):
+def deep_party_attribute(uid, email):
+    """an attribute that documents its own methods, with a data source whose creator sits nine levels below eml"""
+    a = e3._clone(ATTRIBUTE)
+    src = ["dataSource", None, {}, [["title", W_(6), {}, []], party("creator", uid=uid, email=email), party("contact")]]
+    a[3].append(["methods", None, {}, [["methodStep", None, {}, [["description", "how it was measured", {}, []], src]]]])
+    return a
+
+
+def datatable(desc="text", phys=True, nrec="present", own_methods=False, own_coverage=False, attr_methods=None, **pk):
     k = [["entityName", "T", {}, []]]
     if desc == "text":
         k.append(["entityDescription", "the table", {}, []])
@@ -291,7 +305,10 @@ def datatable(desc="text", phys=True, nrec="present", own_methods=False, own_cov
         k.append(["coverage", None, {}, [["temporalCoverage", None, {}, [["singleDateTime", None, {}, [["calendarDate", "2001", {}, []]]]]]]])
     if own_methods:
         k.append(["methods", None, {}, [["methodStep", None, {}, [["description", "entity level", {}, []]]]]])
-    k.append(["attributeList", None, {}, [e3._clone(ATTRIBUTE)]])
+    if attr_methods is not None:
+        k.append(["attributeList", None, {}, [e3._clone(ATTRIBUTE), deep_party_attribute(*attr_methods)]])
+    else:
+        k.append(["attributeList", None, {}, [e3._clone(ATTRIBUTE)]])
     if nrec == "present":
         k.append(["numberOfRecords", "3", {}, []])
     elif nrec == "empty":
@@ -389,7 +406,7 @@ def build(p):
 
 def dataset_product():
     abstracts = [("absent", 0), ("none", 0)]
-    for form in ("own", "para", "section", "markdown", "inline", "split"):
+    for form in ("own", "para", "section", "markdown", "inline", "split", "nested"):
         for n in (0, 1, 19, 20, 21):
             abstracts.append((form, n))
     for ab in abstracts:
@@ -423,7 +440,7 @@ def single_knob_deviations():
     """one knob off the warning-free baseline, per evaluator (for the cross-evaluator pairs)"""
     devs = []
     devs += [dict(title_words=4), dict(title_words=0), dict(project_title_words=7)]
-    for ab in (("absent", 0), ("own", 19), ("para", 19), ("inline", 5), ("own", 0), ("split", 20)):
+    for ab in (("absent", 0), ("own", 19), ("para", 19), ("inline", 5), ("own", 0), ("split", 20), ("nested", 24)):
         devs.append(dict(abstract=ab))
     devs += [dict(coverage=False), dict(datatable=False), dict(rights="absent"), dict(rights="empty"), dict(methods=False),
              dict(project=False), dict(keywords=()), dict(keywords=(4,)), dict(keywords=(2, 2))]
@@ -435,7 +452,7 @@ def single_knob_deviations():
         for o in (dict(), dict(uid="other", email="empty"), dict(uid="none", name="org")):
             devs.append({kind: o})
     for o in (dict(desc="absent"), dict(phys=False), dict(size="absent"), dict(auth="empty"), dict(rd="absent"), dict(rd="direct"),
-              dict(nrec="absent")):
+              dict(nrec="absent"), dict(attr_methods=("none", "none"))):
         devs.append(dict(dt=o))
     for o in ("text", "empty", "absent"):
         devs.append(dict(other=o))
@@ -650,6 +667,12 @@ def all_params(tier):
     for k in ("method_desc", "maint_desc", "qc_desc", "extent_desc"):
         for f in ("own", "para", "markdown", "empty", "emptystr", "inline"):
             out.append({k: f})
+    # rule-bearing nodes far below the dataset: a creator inside the data source of an attribute's own methods
+    for uid in ("none", "orcid", "other", "empty"):
+        for email in ("none", "present", "empty"):
+            out.append(dict(dt=dict(attr_methods=(uid, email))))
+    for n in (18, 19, 20, 21, 24, 40):
+        out.append(dict(abstract=("nested", n)))
     # look-alikes at another level must not stand in for the dataset-level element
     for dtk in (dict(own_methods=True), dict(own_coverage=True), dict(own_methods=True, own_coverage=True)):
         for meth in (True, False):
